@@ -190,6 +190,10 @@ MUTANTS = [
      "      catch( std::exception& /*unused*/ ) {\n         Control< Rule >::raise_nested( am, st... );", "      catch( ... ) {\n         Control< Rule >::raise_nested( am, st... );", ["C05"], "parse_nested also converts exceptions that are not std::exception"),
     ("m80-parse-nested-inner-position", I + "parse.hpp",
      "         Control< Rule >::raise_nested( am, st... );", "         Control< Rule >::raise_nested( in, st... );", ["C05"], "parse_nested reports the inner input's position instead of the ambient one"),
+    ("m81-variadic-disable-is-seq", I + "internal/disable.hpp",
+     "   struct disable\n      : disable< seq< Rules... > >\n   {};", "   struct disable\n      : seq< Rules... >\n   {};", ["C13"], "disable< A, B > (variadic form) does not disable actions"),
+    ("m82-variadic-at-consumes", I + "internal/at.hpp",
+     "   struct at\n      : at< seq< Rules... > >\n   {};", "   struct at\n      : seq< Rules... >\n   {};", ["C02"], "at< A, B > (variadic form) consumes"),
     ("m73-tracer-unwind-no-pop", I + "contrib/trace.hpp",
      "      void unwind( const ParseInput& in, States&&... /*unused*/ )\n      {\n         const auto prev = m_stack.back();\n         m_stack.pop_back();", "      void unwind( const ParseInput& in, States&&... /*unused*/ )\n      {\n         const auto prev = m_stack.back();", ["C08"], "tracer keeps the entry of an unwound rule on its stack"),
     ("m74-state-control-apply0-not-forwarded", I + "contrib/state_control.hpp",
